@@ -54,7 +54,11 @@ func (sv structValue) PropertyValue(index Value) Value {
 		return sv.invoke(m)
 	}
 	if field, ok := sv.findField(name); ok {
-		fv := sr.FieldByName(field.Name)
+		// a field promoted through a nil embedded pointer has no value
+		fv, err := sr.FieldByIndexErr(field.Index)
+		if err != nil {
+			return nilValue
+		}
 		if fv.Kind() == reflect.Func {
 			return sv.invoke(fv)
 		}
@@ -64,6 +68,8 @@ func (sv structValue) PropertyValue(index Value) Value {
 }
 
 const tagKey = "liquid"
+
+var errorType = reflect.TypeOf((*error)(nil)).Elem()
 
 // like FieldByName, but obeys `liquid:"name"` tags
 func (sv structValue) findField(name string) (*reflect.StructField, bool) {
@@ -91,7 +97,11 @@ func (sv structValue) invoke(fv reflect.Value) Value {
 		return nilValue
 	}
 	mt := fv.Type()
-	if mt.NumIn() > 0 || mt.NumOut() > 2 {
+	// callable from a template: no arguments; one result, or a result and an error
+	if mt.NumIn() > 0 || mt.NumOut() < 1 || mt.NumOut() > 2 {
+		return nilValue
+	}
+	if mt.NumOut() == 2 && !mt.Out(1).Implements(errorType) {
 		return nilValue
 	}
 	results := fv.Call([]reflect.Value{})
